@@ -21,7 +21,7 @@ func placeLegit(r *hx.Rng, ch *Chain, alloc *coordAlloc) []*ref.Op {
 }
 
 func checkC01(c *hx.Ctx) {
-	c.Rule("legitimate chain L (create + 1..8 random update/recover steps, optional final deactivate; key types drawn from all five; sha2-256 and sha2-512) and a multiset F of unauthorised operations (stranger key, wrong signer, tampered signature, altered signed payload, reveal/key mismatch, foreign signed suffix, swapped delta) aimed at the commitment in force at each step plus later duplicate creates, anchored at arbitrary positions (also immediately before the legitimate operation, before the create, and unpublished); oracle Resolve(L+F)==Resolve(L) and ==reference model; non-trivial = F contains an operation that reveals a commitment of L or is a later create")
+	c.Rule("legitimate chain L (create + 1..8 random update/recover steps, optional final deactivate; key types drawn from all five; sha2-256 and sha2-512) and a multiset F of unauthorised operations (stranger key, wrong signer, tampered signature, altered signed payload, reveal/key mismatch, foreign signed suffix, swapped delta, copies of the owner's own operations with the genuine signature over another payload) aimed at the commitment in force at each step plus later duplicate creates, anchored at arbitrary positions (also immediately before the legitimate operation, before the create, and unpublished); oracle Resolve(L+F)==Resolve(L) and ==reference model; non-trivial = F contains an operation that reveals a commitment of L or is a later create")
 	c.Assume("forged operations are exactly those failing the authorisation test; operation lists in the result are not compared")
 	nCases := c.N(1500, 40000)
 	root := c.Rng("cases")
@@ -91,6 +91,17 @@ func checkC01(c *hx.Ctx) {
 				F = append(F, Place(f, uint64(5000+k), 0, "", p.GenesisTime)) // unpublished
 			} else {
 				t, n, id := alloc.take(r, lo, hi)
+				F = append(F, Place(f, t, n, id, p.GenesisTime))
+			}
+		}
+		// copies of the owner's own operations carrying the owner's genuine signature over another payload, anchored just
+		// before the original (Resolve(L) runs first in this process, so the genuine signature has been verified by then)
+		for k := 1; k < len(L); k++ {
+			if !r.Chance(1, 2) {
+				continue
+			}
+			if f := forgeFromLegit(fmt.Sprintf("F%d:i-copy-of-legit-%s-genuine-signature-other-payload", k, L[k].Type), ch.Legit[k], code, ch.newKey("X").Commitment(code)); f != nil {
+				t, n, id := alloc.take(r, L[k].Time-19, L[k].Time-1)
 				F = append(F, Place(f, t, n, id, p.GenesisTime))
 			}
 		}
